@@ -128,29 +128,30 @@ def hostile_doc(draw):
     taken = {names.norm(n) for n, _ in ir["schemas"]}
     n_excl = [0]
 
-    def _claim(s, base):
+    def _claim(s, base, parent=""):
         """Returns False if the class this schema would generate collides with one already claimed."""
         k = s.get("k")
         if k == "array":
-            return _claim(s["items"], base + "item")
+            return _claim(s["items"], base + "item", parent)
         if k == "union":
-            return all(_claim(m, base + f"type{i}") for i, m in enumerate(s["members"]))
+            return all(_claim(m, base + f"type{i}", parent) for i, m in enumerate(s["members"]))
         if k not in ("object", "enum"):
             return True
-        me = names.norm(s["title"]) if s.get("title") else base
-        if me in taken or not me:
+        # a titled inline schema is named after its title, prefixed with the parent's class name (default configuration)
+        mine = {parent + names.norm(s["title"]), names.norm(s["title"])} if s.get("title") else {base}
+        if (mine & taken) or "" in mine:
             return False
-        taken.add(me)
+        taken.update(mine)
         if k == "object":
-            _claim_props(s, me)
+            _claim_props(s, sorted(mine, key=len)[-1])
         return True
 
     def _claim_props(s, me):
         for p in s.get("props", []):
-            if not _claim(p[1], me + names.norm(p[0])):
+            if not _claim(p[1], me + names.norm(p[0]), me):
                 p[1] = {"k": "str"}
                 n_excl[0] += 1
-        if isinstance(s.get("addl"), dict) and not _claim(s["addl"], me + "additionalproperty"):
+        if isinstance(s.get("addl"), dict) and not _claim(s["addl"], me + "additionalproperty", me):
             s["addl"] = None
             n_excl[0] += 1
 
